@@ -573,12 +573,13 @@ def _parse_config_params(toml):
             f"invalid phase assemblage: {_params['phase_assemblage']}"
         ) from None
 
-    # Make sure initial olivine fabric is valid.
+    # Make sure initial olivine fabric is valid (the default is already an enum member).
     try:
-        _params["initial_olivine_fabric"] = getattr(
-            _core.MineralFabric, "olivine_" + _params["initial_olivine_fabric"]
-        )
-    except AttributeError:
+        if not isinstance(_params["initial_olivine_fabric"], _core.MineralFabric):
+            _params["initial_olivine_fabric"] = getattr(
+                _core.MineralFabric, "olivine_" + _params["initial_olivine_fabric"]
+            )
+    except (AttributeError, TypeError):
         raise _err.ConfigError(
             f"invalid initial olivine fabric: {_params['initial_olivine_fabric']}"
         ) from None
